@@ -82,6 +82,24 @@ theorem all_reverse' {α} (p : α → Bool) (a : List α) (ha : a.all p = true) 
 
 /-! ### strip -/
 
+/-- `dropWhile p`, reverse, `dropWhile p`, reverse: the shape of `str.strip()` and of the
+white space removal of `int(str)` -/
+def stripP (p : Char → Bool) (s : Str) : Str := ((s.dropWhile p).reverse.dropWhile p).reverse
+
+theorem stripP_pad (p : Char → Bool) (l s r : Str) (hl : l.all p = true) (hr : r.all p = true) :
+    stripP p (l ++ s ++ r) = stripP p s := by
+  unfold stripP
+  rw [List.append_assoc, dropWhile_append_all p l (s ++ r) hl]
+  by_cases h : s.dropWhile p = []
+  · have hs : s.all p = true := all_of_dropWhile_nil _ _ h
+    have : (s ++ r).dropWhile p = [] := dropWhile_all _ _ (all_append' _ _ _ hs hr)
+    rw [this, h]
+  · rw [dropWhile_append_ne_nil p s r h, List.reverse_append,
+      dropWhile_append_all p r.reverse _ (all_reverse' _ _ hr)]
+
+theorem strip_eq_stripP (e : Env) (s : Str) : e.strip s = stripP e.isSpace s := rfl
+theorem intStrip_eq_stripP (e : Env) (s : Str) : e.intStrip s = stripP e.isIntSpace s := rfl
+
 theorem lstrip_pad (e : Env) (l s : Str) (hl : allSpace e l = true) : e.lstrip (l ++ s) = e.lstrip s :=
   dropWhile_append_all e.isSpace l s hl
 
@@ -91,21 +109,66 @@ theorem rstrip_pad (e : Env) (s r : Str) (hr : allSpace e r = true) : e.rstrip (
 
 theorem rstrip_nil (e : Env) : e.rstrip [] = [] := rfl
 
+/-- `str.strip()` ignores padding that is `str.isspace` -/
 theorem strip_pad (e : Env) (l s r : Str) (hl : allSpace e l = true) (hr : allSpace e r = true) :
     e.strip (l ++ s ++ r) = e.strip s := by
-  unfold Env.strip
-  rw [List.append_assoc, lstrip_pad e l (s ++ r) hl]
-  by_cases h : e.lstrip s = []
-  · have hs : s.all e.isSpace = true := all_of_dropWhile_nil _ _ h
-    have : e.lstrip (s ++ r) = [] := dropWhile_all _ _ (all_append' _ _ _ hs hr)
-    rw [this, h]
-  · have : e.lstrip (s ++ r) = e.lstrip s ++ r := dropWhile_append_ne_nil _ _ _ h
-    rw [this, rstrip_pad e _ r hr]
+  rw [strip_eq_stripP, strip_eq_stripP]
+  exact stripP_pad e.isSpace l s r hl hr
 
-theorem pyInt_pad (e : Env) (l s r : Str) (hl : allSpace e l = true) (hr : allSpace e r = true) :
+/-! ### `int(str)`: a narrower notion of white space
+
+CPython's `int(str)` skips \t \n \v \f \r, space and the non-ASCII Unicode spaces, but NOT the
+ASCII separators FS GS RS US (0x1c–0x1f) that `str.isspace()` / `str.strip()` accept. -/
+
+/-- every character of `s` is skipped by `int(str)`; such a string is also blank for `str.strip()`
+(`allBlank_allSpace`), so it is blank for every converter of the fragment -/
+def allBlank (e : Env) (s : Str) : Bool := s.all e.isIntSpace
+
+theorem isSpace_of_isIntSpace (e : Env) (c : Char) (h : e.isIntSpace c = true) : e.isSpace c = true := by
+  unfold Env.isIntSpace at h
+  unfold Env.isSpace
+  by_cases ha : isAscii c = true
+  · simp only [ha, if_true] at h ⊢
+    simp only [isAsciiSpace]
+    simp only [Bool.or_eq_true, Bool.and_eq_true, decide_eq_true_eq] at h ⊢
+    omega
+  · simp only [ha] at h ⊢
+    exact h
+
+theorem allBlank_allSpace (e : Env) (s : Str) (h : allBlank e s = true) : allSpace e s = true := by
+  simp only [allBlank, allSpace, List.all_eq_true] at h ⊢
+  exact fun c hc => isSpace_of_isIntSpace e c (h c hc)
+
+/-- the white space of XML: #x20 #x9 #xD #xA -/
+def isXmlWs (c : Char) : Bool := c = ' ' || c = '\t' || c = '\r' || c = '\n'
+
+/-- XML white space is blank for `int()` (hence for `str.strip()`) in every environment -/
+theorem allBlank_of_xmlWs (e : Env) (s : Str) (h : s.all isXmlWs = true) : allBlank e s = true := by
+  simp only [allBlank, List.all_eq_true] at h ⊢
+  intro c hc
+  have := h c hc
+  simp only [isXmlWs, Bool.or_eq_true, decide_eq_true_eq] at this
+  rcases this with ((h1 | h1) | h1) | h1 <;> subst h1 <;> simp [Env.isIntSpace, isAscii]
+
+/-- `int(str)` ignores padding that `int` itself regards as white space -/
+theorem intStrip_pad (e : Env) (l s r : Str) (hl : allBlank e l = true) (hr : allBlank e r = true) :
+    e.intStrip (l ++ s ++ r) = e.intStrip s := by
+  rw [intStrip_eq_stripP, intStrip_eq_stripP]
+  exact stripP_pad e.isIntSpace l s r hl hr
+
+theorem pyInt_pad (e : Env) (l s r : Str) (hl : allBlank e l = true) (hr : allBlank e r = true) :
     e.pyInt (l ++ s ++ r) = e.pyInt s := by
   unfold Env.pyInt
-  rw [strip_pad e l s r hl hr]
+  rw [intStrip_pad e l s r hl hr]
+
+/-- the statement with `str.isspace` padding is FALSE for `int`: `int("\x1c1")` raises ValueError
+although `"\x1c1".strip() == "1"` -/
+theorem pyInt_pad_isspace_false :
+    ¬ (∀ (e : Env) (l s r : Str), allSpace e l = true → allSpace e r = true → e.pyInt (l ++ s ++ r) = e.pyInt s) := by
+  intro h
+  have := h Env.ascii [Char.ofNat 0x1c] ['1'] [] (by decide) (by decide)
+  revert this
+  decide
 
 theorem resolveQName_pad (e : BEnv) (l s r : Str) (n : NsMap) (hl : allSpace e.py l = true) (hr : allSpace e.py r = true) :
     resolveQName e (l ++ s ++ r) n = resolveQName e s n := by
@@ -117,21 +180,43 @@ def strips : TypeRef → Bool
   | .prim .str | .obj => false
   | _ => true
 
-theorem deOne_pad (e : BEnv) (l s r : Str) (t : TypeRef) (n : NsMap) (ht : strips t = true)
+/-- … and strips with `str.strip()` (everything except `str`/`object`/`int`) -/
+def stripsSpace : TypeRef → Bool
+  | .prim .str | .obj | .prim .int => false
+  | _ => true
+
+/-- padding that is `str.isspace`: bool, QName (not int) -/
+theorem deOne_pad_space (e : BEnv) (l s r : Str) (t : TypeRef) (n : NsMap) (ht : stripsSpace t = true)
     (hl : allSpace e.py l = true) (hr : allSpace e.py r = true) :
     deOne e (l ++ s ++ r) t n = deOne e s t n := by
   unfold deOne
   split
-  · simp [strips] at ht
-  · simp [strips] at ht
-  · rw [pyInt_pad e.py l s r hl hr]
+  · simp [stripsSpace] at ht
+  · simp [stripsSpace] at ht
+  · simp [stripsSpace] at ht
   · rw [strip_pad e.py l s r hl hr]
   · rw [resolveQName_pad e l s r n hl hr]
   · rfl
   · rfl
 
+/-- padding that is blank for `int()` too: int, bool, QName -/
+theorem deOne_pad (e : BEnv) (l s r : Str) (t : TypeRef) (n : NsMap) (ht : strips t = true)
+    (hl : allBlank e.py l = true) (hr : allBlank e.py r = true) :
+    deOne e (l ++ s ++ r) t n = deOne e s t n := by
+  by_cases hi : t = .prim .int
+  · subst hi
+    unfold deOne
+    rw [pyInt_pad e.py l s r hl hr]
+  · have hs : stripsSpace t = true := by
+      cases t with
+      | prim p => cases p <;> simp_all [strips, stripsSpace]
+      | cls c => rfl
+      | obj => simp [strips] at ht
+      | other o => rfl
+    exact deOne_pad_space e l s r t n hs (allBlank_allSpace _ _ hl) (allBlank_allSpace _ _ hr)
+
 theorem deserialize_pad (e : BEnv) (l s r : Str) (ts : List TypeRef) (n : NsMap) (ht : ts.all strips = true)
-    (hl : allSpace e.py l = true) (hr : allSpace e.py r = true) :
+    (hl : allBlank e.py l = true) (hr : allBlank e.py r = true) :
     deserialize e (l ++ s ++ r) ts n = deserialize e s ts n := by
   unfold deserialize
   induction ts with
@@ -139,6 +224,16 @@ theorem deserialize_pad (e : BEnv) (l s r : Str) (ts : List TypeRef) (n : NsMap)
   | cons t ts ih =>
     simp only [List.all_cons, Bool.and_eq_true] at ht
     rw [List.findSome?_cons, List.findSome?_cons, deOne_pad e l s r t n ht.1 hl hr, ih ht.2]
+
+theorem deserialize_pad_space (e : BEnv) (l s r : Str) (ts : List TypeRef) (n : NsMap) (ht : ts.all stripsSpace = true)
+    (hl : allSpace e.py l = true) (hr : allSpace e.py r = true) :
+    deserialize e (l ++ s ++ r) ts n = deserialize e s ts n := by
+  unfold deserialize
+  induction ts with
+  | nil => rfl
+  | cons t ts ih =>
+    simp only [List.all_cons, Bool.and_eq_true] at ht
+    rw [List.findSome?_cons, List.findSome?_cons, deOne_pad_space e l s r t n ht.1 hl hr, ih ht.2]
 
 /-! ### `str.split()` -/
 
@@ -272,18 +367,23 @@ example : pySplitWs Env.ascii [' ', 'a', 'b', ' ', ' ', 'c', '\n'] = [['a', 'b']
 example : strips (.prim .int) = true ∧ strips (.prim .bool) = true ∧ strips (.prim .qname) = true
     ∧ strips (.prim .str) = false ∧ strips .obj = false := by decide
 
-/-- an instance of `deOne_pad` with concrete padding, for every environment whose
-`py` component is `Env.ascii` -/
+/-- an instance of `deOne_pad_space` with concrete padding (FS is `str.isspace`), for every
+environment whose `py` component is `Env.ascii` -/
 example (e : BEnv) (he : e.py = Env.ascii) (n : NsMap) :
-    deOne e ([' ', '\t'] ++ ['1'] ++ ['\n']) (.prim .bool) n = some (.bool true) := by
-  rw [deOne_pad e _ _ _ _ n rfl (by rw [he]; decide) (by rw [he]; decide)]
+    deOne e ([' ', Char.ofNat 0x1c] ++ ['1'] ++ ['\n']) (.prim .bool) n = some (.bool true) := by
+  rw [deOne_pad_space e _ _ _ _ n rfl (by rw [he]; decide) (by rw [he]; decide)]
   simp only [deOne, he]
   decide
 
-/-- ASCII whitespace is whitespace in every `Env`, so the padding hypotheses are
+/-- XML white space is blank in every `Env`, so the padding hypotheses of the `int` lemmas are
 satisfiable for every `Env` -/
-example (e : Env) : allSpace e [' ', '\t', '\n', '\r'] = true := by
-  simp [allSpace, Env.isSpace, isAscii, isAsciiSpace]
+example (e : Env) : allBlank e [' ', '\t', '\n', '\r'] = true := allBlank_of_xmlWs e _ (by decide)
+example (e : Env) : allSpace e [' ', '\t', '\n', '\r'] = true :=
+  allBlank_allSpace e _ (allBlank_of_xmlWs e _ (by decide))
+
+/-- FS is `str.isspace` but not blank for `int()` -/
+example : allSpace Env.ascii [Char.ofNat 0x1c] = true ∧ allBlank Env.ascii [Char.ofNat 0x1c] = false := by decide
+example : Env.ascii.pyInt [Char.ofNat 0x1c, '1'] = none ∧ Env.ascii.pyInt [' ', '1'] = some 1 := by decide
 
 /-- without `strips` the statement is false: `str` keeps the padding -/
 example (e : BEnv) (n : NsMap) :
